@@ -388,7 +388,7 @@ fn target_len(cap: usize) -> impl Strategy<Value = usize> {
 pub fn block_hash(cap: usize) -> impl Strategy<Value = Vec<u8>> {
     (
         target_len(cap),
-        prop::sample::select(vec![1u8, 2, 4, 16, 64]),
+        prop::sample::select(vec![1u8, 2, 4, 4, 16, 16, 16, 64, 64, 64, 64, 64]),
         any::<u8>(),
         vec((any::<u8>(), run_len()), 0..=70),
     )
@@ -407,6 +407,21 @@ pub fn block_hash(cap: usize) -> impl Strategy<Value = Vec<u8>> {
             }
             out
         })
+}
+
+/// block hash whose length is mostly >= `min` (comparison properties need >= 7 symbols)
+pub fn block_hash_min(cap: usize, min: usize) -> impl Strategy<Value = Vec<u8>> {
+    (block_hash(cap), block_hash(cap), 0u8..10).prop_map(move |(a, b, k)| {
+        if a.len() >= min || k == 0 {
+            a
+        } else {
+            // extend with the second layout
+            let mut v = a;
+            v.extend(b);
+            v.truncate(cap);
+            v
+        }
+    })
 }
 
 /// normalised block hash (no run longer than 3)
@@ -435,6 +450,11 @@ impl RawH {
     pub fn fp(&self) -> u64 {
         oracle::fingerprint(self.text().as_bytes())
     }
+}
+
+/// raw hash with block hashes mostly long enough to be comparable
+pub fn raw_hash_long(cap2: usize) -> impl Strategy<Value = RawH> {
+    (log_bs(), block_hash_min(64, 12), block_hash_min(cap2, 12)).prop_map(|(log, bh1, bh2)| RawH { log, bh1, bh2 })
 }
 
 pub fn raw_hash(cap2: usize) -> impl Strategy<Value = RawH> {
